@@ -71,6 +71,11 @@ claimed.update({
    text="A routed path requested through a real RTSP session (DESCRIBE/SETUP/PLAY) or by 2-3 racing requesters, with the pull client dialling a scripted fake camera: handshake step {connect, OPTIONS, DESCRIBE, SETUP video, SETUP audio, PLAY, streaming} x response kind {ok, refused, dial timeout, 404, 500, malformed, silence, reset, early EOF} x auth {none, Basic, Digest, never satisfied}; after a failure a second request meets a behaving camera. Oracle: success = right address and URL, credentials verified per RFC 2617 by the camera, stream under the requested path, camera packets relayed contiguously; failure = 404-style answer within the time budget, nothing registered, camera connection closed, counters back, later request dials afresh; concurrent requests end with one registered stream and no orphan connection after the requesters leave.",
    note="Trusted: fake camera and its RFC 2617 verification, simnet dial seam (import-substituted into pull_client.go), sim.Conn. One (step, kind, auth) cell per run, seeded; all cells are reached in the quick tier (fault counters in the evidence)."),
 })
+claimed.update({
+ "C11": dict(level="exploration", ref="§5 C11",
+   text="Authentication on; four users with pull/push rights over four streams; 0-2 administrator edits through the real API (narrow, widen, delete, re-create, password change); then 3-6 requests out of HTTP-FLV, HLS playlist and segment, RTSP digest play and publish, ws-rtsp upgrade plus a publish attempt through the WebSocket session, management API calls, token lifecycle (refresh token as access token, superseded token, invented token, expiry after 2 h on the fake clock) and an attacker deriving tokens from the identifiers disclosed to an unauthenticated client. Oracle: reference monitor decision(user, action, path) on the table as last saved with an independent pattern matcher: media / publication / management happens iff allowed (false grants and false refusals are both violations).",
+   note="Trusted: the reference matcher (harness/oracle/authz.go, written from docs/config.md and the property text), the harness HTTP/1.1 loop and gorilla WebSocket client over sim.Conn, the fake clock for token expiry. WSP and WebSocket-FLV entry points are not driven yet; TLS is not simulated; the clock only moves forward."),
+})
 pending = {
 }
 not_applicable = {
